@@ -26,6 +26,8 @@ pub enum Tier {
 struct Known {
     key: String,
     what: String,
+    /// exact keys loaded from `keys_file` (one per line), if the entry has one
+    exact: Option<std::collections::HashSet<String>>,
 }
 
 pub struct Run {
@@ -164,9 +166,20 @@ impl Run {
                 Ok(v) => {
                     for e in v["findings"].as_array().cloned().unwrap_or_default() {
                         if e["property"].as_str() == Some(id) && e["status"].as_str() == Some("known") {
+                            let exact = e["keys_file"].as_str().map(|f| {
+                                let path = format!("{}/{f}", verif_root());
+                                match std::fs::read_to_string(&path) {
+                                    Ok(t) => t.lines().map(|l| l.trim().to_string()).filter(|l| !l.is_empty()).collect(),
+                                    Err(err) => {
+                                        eprintln!("cannot read {path}: {err}");
+                                        std::process::exit(2);
+                                    }
+                                }
+                            });
                             known.push(Known {
                                 key: e["key"].as_str().unwrap_or("").to_string(),
                                 what: e["what"].as_str().unwrap_or("").to_string(),
+                                exact,
                             });
                         }
                     }
@@ -258,8 +271,23 @@ impl Run {
     /// Reports a failing case.  `key` is the canonical case id; a known finding matches if its
     /// key equals `key`, or ends in `*` and is a prefix of `key`.
     pub fn fail(&self, key: &str, what: &str, detail: Value) {
+        if let Ok(path) = std::env::var("VERIF_DUMP_FAILS") {
+            // development aid: every failing key (known or not), one per line
+            use std::io::Write;
+            static LOCK: Mutex<()> = Mutex::new(());
+            let _g = LOCK.lock().unwrap();
+            if let Ok(mut f) = std::fs::OpenOptions::new().create(true).append(true).open(path) {
+                let _ = writeln!(f, "{key}");
+            }
+        }
         for k in &self.known {
-            let hit = if let Some(pre) = k.key.strip_suffix('*') { key.starts_with(pre) } else { k.key == key };
+            let hit = if let Some(set) = &k.exact {
+                set.contains(key)
+            } else if let Some(pre) = k.key.strip_suffix('*') {
+                key.starts_with(pre)
+            } else {
+                k.key == key
+            };
             if hit {
                 let mut kh = self.known_hit.lock().unwrap();
                 let e = kh.entry(k.key.clone()).or_insert((0, k.what.clone()));
